@@ -35,7 +35,9 @@ RULE = ("hdf5: one transition = one real to_hdf5(file, groupname) of a pool obje
         "reader regroups).  vcf: one case = one VCF text (samples x records x phased diploid calls x contig/position/ID "
         "layout) read by from_vcf of both genotype classes with and without auto_group_vrnt.  copy: copy.copy, "
         "copy.deepcopy, .copy(), .deepcopy() equal their source; deep copies share no ndarray memory / dict / nested "
-        "object with it and every single-cell mutation of the deep copy leaves the source's observation unchanged; genetic "
+        "object with it and every single-cell mutation of the deep copy leaves the source's observation unchanged; a SECOND "
+        "copy by the same route, taken after the first copy and the source were edited, equals the current source and shares "
+        "nothing with either; genetic "
         "maps are also observed by what they DO (interp_genpos at own, midpoint and fixed probe positions, spline keys and "
         "knots), in states whose stored spline differs from a fresh build (remove/select without rebuild, user spline)")
 ASSUME = ["h5py, pandas and cyvcf2 read back what they were given (trusted base)",
@@ -812,6 +814,55 @@ def copy_case(ctx, name, prof, how, seed):
         ctx.traces += 1
 
 
+def _first_array(o):
+    return next(((p, v) for p, v in sorted(leaves(o), key=lambda kv: kv[0])
+                 if isinstance(v, numpy.ndarray) and v.size and v.flags.writeable), None)
+
+
+def copy_repeat(ctx, name, prof, how, seed):
+    """Two copies of the SAME source by the same route, with the first copy and the source edited in between: the
+    second copy must equal the current source, be a new object, and (deep routes) share nothing with source or first copy."""
+    obj = P.build(name, prof, seed)
+    cls = type(obj)
+    meth = _w(how)
+    base = f"{sig_class(cls, (meth,))[0]}.{meth}"
+    case = dict(kind="copy", cls=name, prof=prof["id"], how=how, seed=seed)
+    ctx.transitions += 2
+
+    def go():
+        with P.quiet():
+            c1 = COPY_WAYS[how](obj)
+        for o in (c1, obj):
+            fa = _first_array(o)
+            if fa is not None:
+                idx = numpy.unravel_index(fa[1].size - 1, fa[1].shape)
+                fa[1][idx] = _other(fa[1][idx])
+        exp2 = P.observe(obj)
+        with P.quiet():
+            c2 = COPY_WAYS[how](obj)
+        if c2 is c1 or c2 is obj:
+            raise Violation(f"{base}:second-copy-is-same-object", f"{name} {prof['id']}: the second copy is "
+                            f"{'the first copy' if c2 is c1 else 'the source'}", case)
+        d = P.diff(exp2, P.observe(c2))
+        if d:
+            raise Violation(f"{base}:second-copy-stale:{d[1]}:{d[0]}",
+                            f"{name} {prof['id']}: a second copy taken after the source was edited differs from the source: {d}", case)
+        if "deep" in how:
+            l2 = dict(leaves(c2))
+            for other, label in ((dict(leaves(obj)), "source"), (dict(leaves(c1)), "first copy")):
+                for p_ in sorted(l2):
+                    a, b = l2[p_], other.get(p_)
+                    if b is None:
+                        continue
+                    if a is b or (isinstance(a, numpy.ndarray) and isinstance(b, numpy.ndarray) and a.size and numpy.shares_memory(a, b)):
+                        raise Violation(f"{base}:second-copy-shares-state:{p_.lstrip('_')}",
+                                        f"{name} {prof['id']}: second deep copy shares '{p_}' with the {label}", case)
+
+    if ctx.guard(go, case=case, sig_prefix=f"{base}:repeat:"):
+        ctx.flag("copy-repeat:" + how)
+    ctx.count("copy-repeats")
+
+
 def _w(how):
     return {"copy.copy": "__copy__", "copy.deepcopy": "__deepcopy__", ".copy()": "copy", ".deepcopy()": "deepcopy"}[how]
 
@@ -822,6 +873,7 @@ def run_copy(ctx, name):
     for prof, _ in P.build_pool(name, "wide", ctx.seed):
         for how in COPY_WAYS:
             copy_case(ctx, name, prof, how, ctx.seed)
+            copy_repeat(ctx, name, prof, how, ctx.seed)
         if prof.get("post") or prof["id"] in ("kind-nearest", "fill-array", "no-spline-ungrouped"):
             ctx.flag("copy-post-op:" + prof["id"])
     ctx.flag(f"copy:{name}")
@@ -830,6 +882,8 @@ def run_copy(ctx, name):
 # ----------------------------------------------------------------------------
 # VCF
 CALLS = ["0|0", "0|1", "1|0", "1|1"]
+# REF/ALT alphabet: SNP, deletion (multi-base REF), MNP, insertion (multi-base ALT); the coordinate of a record is its POS
+ALLELES = [("A", "T"), ("ACG", "A"), ("AT", "GC"), ("C", "CTT")]
 VCF_HEADER = ('##fileformat=VCFv4.2\n##contig=<ID={c1}>\n##contig=<ID={c2}>\n'
               '##FORMAT=<ID=GT,Number=1,Type=String,Description="Genotype">\n')
 
@@ -912,8 +966,9 @@ def vcf_text(seed, ns, nr, ci, li):
     samples = a["samples"][:ns]
     lines = [VCF_HEADER.format(c1=a["contigs"][0], c2=a["contigs"][1]),
              "#CHROM\tPOS\tID\tREF\tALT\tQUAL\tFILTER\tINFO\tFORMAT\t" + "\t".join(samples) + "\n"]
-    for c, p, i, cl in recs:
-        lines.append(f"{c}\t{p}\t{i}\tA\tT\t.\t.\t.\tGT\t" + "\t".join(CALLS[k] for k in cl) + "\n")
+    for j, (c, p, i, cl) in enumerate(recs):
+        ref, alt = ALLELES[(ci + li + j) % len(ALLELES)]      # rotates with the case: every size sees every allele class
+        lines.append(f"{c}\t{p}\t{i}\t{ref}\t{alt}\t.\t.\t.\tGT\t" + "\t".join(CALLS[k] for k in cl) + "\n")
     return "".join(lines), samples, recs
 
 
@@ -1023,6 +1078,10 @@ def vcf_case(ctx, sc, seed, ns, nr, ci, li, sample=False):
         ctx.flag("vcf:tie")
     if 0 in idp:
         ctx.flag("vcf:missing-id")
+    for j in range(nr):
+        ref, alt = ALLELES[(ci + li + j) % len(ALLELES)]
+        ctx.flag("vcf:allele:" + ("snp" if len(ref) == len(alt) == 1 else "deletion" if len(ref) > len(alt) else
+                                  "insertion" if len(alt) > len(ref) else "mnp"))
     if len(set(chrom_ix)) > 1:
         ctx.flag("vcf:two-contigs")
     if list(zip(chrom_ix, posp)) != sorted(zip(chrom_ix, posp)):
@@ -1039,7 +1098,7 @@ def vcf_case(ctx, sc, seed, ns, nr, ci, li, sample=False):
 
 def run_vcf(ctx, sc, spec):
     _, ns, nr, mode, part, nparts = spec
-    ctx.bounds.update({"vcf_max_samples": 3, "vcf_max_records": 3, "vcf_calls": CALLS, "vcf_contigs": 2,
+    ctx.bounds.update({"vcf_max_samples": 3, "vcf_max_records": 3, "vcf_calls": CALLS, "vcf_contigs": 2, "vcf_ref_alt": [list(a) for a in ALLELES],
                        "vcf_enumeration": "calls x layouts full product for 1x1,1x2,2x1,1x3,3x1,2x2 (+3x2 in thorough); all call "
                                           "matrices with rotating (quick) / 3-of-12 sub-sampled (thorough) layouts for 2x3, "
                                           "rotating layouts for 3x2 (quick) and 3x3"})
@@ -1068,7 +1127,7 @@ def finalize(ctx, tier, seed):
         assert f"copy:{name}" in ctx.flags, name
     for f in ("overwrite:rich->poor", "overwrite:poor->rich", "two-locations-in-one-file", "nested-locations",
               "via:str", "via:path", "via:handle", "table-form:pandas", "table-form:csv", "copy-mutation-applied",
-              "vcf:tie", "vcf:missing-id", "vcf:two-contigs", "vcf:unsorted", "vcf:3x3", "vcf:2x2", "vcf:1x1"):
+              "vcf:tie", "vcf:missing-id", "vcf:allele:snp", "vcf:allele:deletion", "vcf:allele:insertion", "vcf:allele:mnp", "vcf:two-contigs", "vcf:unsorted", "vcf:3x3", "vcf:2x2", "vcf:1x1"):
         assert f in ctx.flags, f
     for gi in range(len(GROUPS)):
         assert f"group-index:{gi}" in ctx.flags, gi
@@ -1084,6 +1143,7 @@ def finalize(ctx, tier, seed):
         assert f in ctx.flags, f
     for how in COPY_WAYS:
         assert f"copy-way:{how}" in ctx.flags, how
+        assert f"copy-repeat:{how}" in ctx.flags, how
     assert ctx.counters.get("copy-mutations", 0) > 1000, ctx.counters.get("copy-mutations")
     assert ctx.counters.get("vcf-files", 0) > 1000
     assert len(ctx.outcomes) > 500, len(ctx.outcomes)
@@ -1105,6 +1165,7 @@ def replay(case, ctx):
         elif k == "copy":
             prof = {p["id"]: p for p in P.profiles(case["cls"], "wide")}[case["prof"]]
             copy_case(ctx, case["cls"], prof, case["how"], case["seed"])
+            copy_repeat(ctx, case["cls"], prof, case["how"], case["seed"])
         elif k == "vcf":
             vcf_case(ctx, sc, case["seed"], case["ns"], case["nr"], case["calls"], case["layout"])
     finally:
